@@ -765,10 +765,29 @@ func (w *World) applyEvmTx(h int64, idx int, p *TxPlan, r *abci.ResponseDeliverT
 	return new(big.Int).Mul(gov.GasPrice, new(big.Int).SetUint64(ref.GasUsed))
 }
 
-// noteEvmAccounts records addresses the reference execution created (inner creates) as known.
+// noteEvmAccounts records what the reference execution created and destroyed.
 func (w *World) noteEvmAccounts(ref *EvmResult) {
+	m := w.M
 	for _, l := range ref.Logs {
-		w.M.Known[Addr(l.Address)] = true
+		m.Known[Addr(l.Address)] = true
+	}
+	for i, a := range ref.Created {
+		m.Known[Addr(a)] = true
+		if !(ref.IsCreate && i == 0) && len(m.W.GetCode(a)) > 0 {
+			m.Inner[Addr(a)] = true
+			w.Probes.Hit("evm.inner-create")
+		}
+	}
+	for _, d := range ref.Destructed {
+		m.Destroyed[Addr(d.Addr)] = true
+		w.Probes.Hit("evm.selfdestruct")
+		if w.Tr.Cfg.AvoidKnown {
+			// listed finding (known_findings.json, C17 selfdestruct-native-nonce): the node keeps the
+			// destroyed contract's nonce in the native ledger and feeds it back into the EVM on the
+			// next access. Random exploration mirrors exactly this so that worlds can continue past a
+			// self-destruct; the witness trace is replayed without the mirror.
+			m.W.SetNonce(d.Addr, d.Nonce)
+		}
 	}
 }
 
